@@ -263,6 +263,23 @@ def run_random(shard, ctx):
                     ctx.count("class:scaffold-added-after-lookups")
                 except ValueError:
                     ctx.count("note:late-add-refused")
+            if _ == 9 and i % 3 == 2:
+                # the SAME Scaffold object gets another row and is indexed in a new assembly: lookups there follow
+                # the rows it has now
+                from tola.assembly.fragment import Fragment as _F
+                from tola.assembly.indexed_assembly import IndexedAssembly as _IA
+
+                sc_obj = asm_.scaffold_by_name("s")
+                extra_len = rng.choice([1, 7, 1000])
+                sc_obj.add_row(_F(f"more{i}", 1, extra_len, 1))
+                try:
+                    ia2 = _IA("again", scaffolds=[sc_obj])
+                    for q in (total + 1, max(1, total - 2), total + extra_len):
+                        _query(ia2, "s", q, q + rng.choice([0, 3, extra_len]), 1)
+                    ctx.count("class:same-scaffold-object-edited-and-indexed-again")
+                except Exception as e:  # noqa: BLE001
+                    ctx.violation(f"indexing-scaffold-raised-{type(e).__name__}", f"{e}", {"kind": "query", "rows": rows, "a": 1, "b": 1})
+                break
             r1 = _query(asm_, "s", a, b, rng.choice([1, -1]))
             if r1 is not None and r1.rows and rng.random() < 0.25:
                 # callers edit the result they were given (discards, trims); asking again must answer afresh
@@ -324,6 +341,7 @@ def gates(c, tier):
         "class:scaffold-longer-than-2^32": 50,
         "class:lookup-after-refused-duplicate-add": 50,
         "class:assemblies-derived-from-one-another": 50,
+        "class:same-scaffold-object-edited-and-indexed-again": 500,
         "class:callers-row-list-reused-after-construction": 1000,
         "class:scaffold-added-after-lookups": 500,
         "class:same-query-after-editing-the-first-answer": 1000,
